@@ -114,7 +114,7 @@ Oracle.fault_points = _fault_points
 
 def run(rep):
     tier = rep.tier
-    phases = plans.standard(tier, thorough_cap=1500, families=None)
+    phases = plans.standard(tier, thorough_cap=400, families=None)
     if tier != "quick":
         for ph in phases:
             ph["extra"] = {"faults": True}
